@@ -38,4 +38,7 @@ theorem holds_ids_distinct (es : List IdAlloc.Ev) (s : IdAlloc.State) (hr : IdAl
 theorem holds_host_broker_uses_client_dir (clientDir : Option String) : Hygiene.hostBrokerDir Facts.hygiene clientDir = clientDir :=
   Props.Hygiene.host_broker_uses_client_dir _ (by decide) clientDir
 
+theorem holds_one_slot_per_id (together : Bool) : Hygiene.slotsAfterRendezvous Facts.hygiene together = 1 :=
+  Props.Hygiene.one_slot_per_id _ (by decide) together
+
 end GoPlugin.Instance.C07
